@@ -9,6 +9,18 @@ CHECKS = {
  "C01": ("exploration", "runtime monitor: closed-loop virtual-time trajectories of the real pacers judged by an independent closed-form schedule oracle",
          "Runs ConstantPacer/SinePacer/LinearPacer in a virtual-time closed loop (hundreds to thousands of parameter sets x 4 stall histories x 5k-20k steps, plus 2e4-1e6 single-point calls at integer-range extremes) and checks every step against an independent closed-form schedule (clauses U/W/L/R/P). Held-on-what-was-observed, not a proof over all parameters.",
          "Reference schedule is float64 closed form with explicit error term; quantisation tolerance of 1ns per hit interval applied to U and L; schedule clauses only below 0.1 hit/ns.", "5/C01"),
+ "C02": ("exploration", "runtime monitor: scripted gated executions of the real Attack judged at quiescent goroutine-dump states (bounded-exhaustive event sequences), porcupine linearizability check of recorded concurrent Stop() histories, free-running stress under the Go race detector, real CLI under SIGINT",
+         "Every event sequence over {tick, pacer-stop, completion ok/err/newest, consume, Stop, targeter error} enabled at quiescent states up to length 6 (quick) / 9 (thorough) for (workers,max) in {0..3}x{1..3} is executed against the real Attacker with all sources of progress gated; after each event the monitor waits for a quiescent goroutine dump and checks: one fresh in-range Seq per started hit, nothing delivered without a started hit, closure exactly once and only after all results, closure+no goroutine of the attack left after the end cause once everything is released and consumed, Stop() return values. Plus PRNG long scripts (max<=8), 2k-50k concurrent Stop histories (2..16 callers, plain and -race) checked with porcupine, free-running stress (max up to 256, racing end causes, DNS refresher) under -race with end-state invariants and race reports attributed to vegeta frames, and the real binary under SIGINT once/twice.",
+         "Exhaustive only over harness-visible events between quiescent states; interleavings inside one step come from the Go scheduler (stress, -race). Liveness restated as bounded progress after the harness stops injecting events. Wall clock only as watchdog (=> inconclusive).", "5/C02"),
+ "C03": ("exploration", "runtime monitor: same scripted gated executions as C02 judged at quiescent states for cap/growth/hand-over, cap asserted inside the transport seam at every entry in -race stress runs, real CLI with -max-workers against a counting server",
+         "On the scripted executions (all event sequences up to length 6/9, (workers,max) in {0..3}x{1..3}, PRNG long scripts with max<=8): started-consumed <= max at every quiescent state; a tick released with busy<max starts its hit at quiescence without any completion or consumption in between (on-demand growth, initial workers 0..3 incl. > max); with busy==max the hit is not started and the pacer is not consulted until one result is consumed, after which it starts. In free-running stress (max up to 256) the cap is checked on the transport's own atomic counter at every entry; the real `vegeta attack -max-workers N` is checked against a server that counts concurrent requests.",
+         "Consumption-related bounds are judged only at quiescent states where all counters are exact; in stress mode the in-transport counter (<= started-consumed) is what is bounded.", "5/C03"),
+ "C17": ("exploration", "runtime monitor: plot HTML parsed back and compared with an independent reference (multiset of points per series), exhaustive lttb.Downsample block for count<=64, real `vegeta plot`",
+         "Generated attacks (1-4 names, contiguous Seqs, OK/ERROR mix, gaps 0..minutes, many arrival orders) are plotted through lib/plot and the real CLI; the data rows and labels are parsed back from the written HTML and compared with an independently computed reference (x = floor((ts-ts0)/1ms)/1000, y = latency ms, per-attack OK/ERROR series, sorted rows, downsampled series = exactly threshold points forming a sub-multiset with first and last kept, thresholds 1/2 rejected). lttb.Downsample is called directly for ALL (count<=64 quick / <=256 thorough, threshold<=count+2) x 3 point shapes plus PRNG cases up to 5000 points.",
+         "Order of points with equal x inside a series is not observable in the HTML; subsequence is checked as sub-multiset per x plus end points.", "5/C17"),
+ "C20": ("exploration", "runtime monitor: registry.Gather() and scrape text compared with exact big-integer sums over the observed results, concurrent observers under the Go race detector",
+         "Sequences of 0..1e4 results over up to 100 label sets are observed sequentially and from 2..32 goroutines (also in a -race child); gathered counters, histogram count/sum/cumulative buckets and the failure counter per label set are compared with an exact reference; the scrape text of NewHandler is parsed independently and must agree.",
+         "Sums compared at 1e-9 relative; bucket bounds taken from what is exported.", "5/C20"),
 }
 NOT_BUILT_REASON = "check not built yet in this revision (designed in DESIGN.md section 5; runtime monitoring applies)"
 ALL = ["C%02d" % i for i in range(1, 21)]
